@@ -229,7 +229,8 @@ fn hostile_text(seed: u64, idx: u64) -> (String, &'static str) {
         }
         0 => {
             let fam = (idx / 7) as usize % 22;
-            let d = NEST_DEPTHS[(idx / 154) as usize % NEST_DEPTHS.len()];
+            // deepest first: a short run reaches the bound of the property (200) in every family
+            let d = NEST_DEPTHS[NEST_DEPTHS.len() - 1 - (idx / 154) as usize % NEST_DEPTHS.len()];
             (nesting(fam, d).unwrap_or_default(), "nesting")
         }
         1 => (crate::gen::mutate::random_text(&mut rng), "random"),
